@@ -1,3 +1,4 @@
+#![allow(unexpected_cfgs)]
 mod cache_manager;
 mod disk;
 pub mod error;
